@@ -91,7 +91,7 @@ def make_trajectory(coords, species, M, time_step=1e-15, temperature=300.0, spec
         species = [cls(s) if isinstance(s, str) else s for s in species]
     return Trajectory(
         species=list(species),
-        coords=np.array(coords, dtype=float),
+        coords=np.asarray(coords, dtype=float),
         lattice=Lattice(np.asarray(M)),
         time_step=time_step,
         metadata={'temperature': temperature},
